@@ -212,6 +212,12 @@ func init() {
 			}
 			return int(v)
 		},
+		"verifParamOr": func(fr *frame, a []value) value {
+			if v, ok := fr.i.cfg.Params[a[0].(string)]; ok {
+				return int(v)
+			}
+			return a[1]
+		},
 		// verifQuiesce() int: run all other goroutines until blocked/done; number still alive
 		"verifQuiesce": func(fr *frame, a []value) value {
 			alive := fr.i.sched.quiesce()
